@@ -26,6 +26,14 @@ def run(ctx):
     cfgs = ["logistic_scalar_src1", "shared_speed_src1", "joint_nosrc"] if q else list(zoo.CONFIGS)
     jobs = [(c, ctx.seed + 11) for c in cfgs]
     sc.run_real(ctx, "C02", jobs, n_ops=80 if q else 300)
+    # sampler level: rejected blocks / individuals are bit-equal to the snapshot, accepted ones hold the proposal, also
+    # when the proposal evaluates to something non-finite (SamplerTrace.tla: post_ok, reads_ok)
+    from ..drivers import sampler as smp
+    plan = [("logistic_diag_src1", "Gibbs", False, None, True), ("linear_scalar_src1", "Metropolis-Hastings", True, None, True)]
+    if not q:
+        plan += [("shared_speed_src1", "FastGibbs", False, "mode_posterior", True), ("joint_src1", "Gibbs", True, None, False),
+                 ("logistic_univariate", "Gibbs", False, None, True)]
+    smp.run_traces(ctx, plan, n_iter=3 if q else 10, seeds=[ctx.seed + 21], selftest=False)
     ctx.exhaustive = False
 
 
